@@ -3,6 +3,8 @@
 // alternatives of a sum in the parse context of a preceding positional)
 #include "C03_common.hpp"
 
+#include <type_traits>
+
 namespace c03
 {
 #define SHAPE(NAME, PARSER, DESC, ALPHA)                                                       \
@@ -72,5 +74,25 @@ void register_c()
         S_commands(S_optional(S_sum("ls", S_option("la", "g", "git-dir", vt::string_, std::nullopt), S_unit_switch("lb", std::nullopt, "bare"))),
                    {{"run", "tx", S_arg("lc", "what", vt::string_)}}),
         alpha({"-g", "--git-dir", "--bare", "run"}));
+  // Several parser OBJECTS of one C++ type with different names, used in turn within one process: what a parser accepts
+  // depends on the object, never on another object of its type that was used before (labels are types, names are values).
+  vrt::shard("shape/same_type_different_names", [] {
+    auto const p1{o::apply(arg<lb, std::string>("b"), op<la, std::string>("o", "opt"))};
+    auto const p2{o::apply(arg<lb, std::string>("b"), op<la, std::string>("p", "out"))};
+    static_assert(std::is_same_v<decltype(p1), decltype(p2)>);
+    auto const d1 = S_product({S_arg("lb", "b", vt::string_), S_option("la", "o", "opt", vt::string_, std::nullopt)});
+    auto const d2 = S_product({S_arg("lb", "b", vt::string_), S_option("la", "p", "out", vt::string_, std::nullopt)});
+    std::vector<std::string> const a{"-o", "--opt", "-p", "--out", "x", "7"};
+    run_shape("same_type_first", p1, d1, a, 3);
+    run_shape("same_type_second", p2, d2, a, 3);
+    run_shape("same_type_first_again", p1, d1, a, 3);
+    auto const f1{o::apply(sw<la>("f", "flag"), arg<lb, std::string>("b"))};
+    auto const f2{o::apply(sw<la>("g", "gag"), arg<lb, std::string>("b"))};
+    static_assert(std::is_same_v<decltype(f1), decltype(f2)>);
+    std::vector<std::string> const fa{"-f", "--flag", "-g", "--gag", "x"};
+    run_shape("same_type_switch_first", f1, S_product({S_switch("la", "f", "flag"), S_arg("lb", "b", vt::string_)}), fa, 3);
+    run_shape("same_type_switch_second", f2, S_product({S_switch("la", "g", "gag"), S_arg("lb", "b", vt::string_)}), fa, 3);
+    run_shape("same_type_switch_first_again", f1, S_product({S_switch("la", "f", "flag"), S_arg("lb", "b", vt::string_)}), fa, 3);
+  }, 120);
 }
 }
